@@ -8,3 +8,5 @@ def run(ctx):
     stage_steps(ctx, stages=['Filter', 'Splitter', 'Selection', 'PreSet'], want=('frame', 'contract'))
     read_input(ctx, ['read.one_context_per_value', 'read.locations'])
     regex_cache(ctx)
+    from ..scen_misc import record_local_premise
+    record_local_premise(ctx)
